@@ -2,6 +2,7 @@ package main
 
 import (
 	"bufio"
+	"bytes"
 	"context"
 	"encoding/json"
 	"errors"
@@ -57,13 +58,16 @@ func (s hsess) sshdMsg() string {
 // bigEvents: the commands of a session carry a long command line, so that each UserAction is larger than PIPE_BUF
 var bigEvents bool
 
+// bigRepeat: how often the 17-byte unit of the long command line is repeated (420: ~7 kB; `big=<n>` on the case line)
+var bigRepeat = 420
+
 func (s hsess) auditLines() []string {
 	hdr := func(i int) string { return fmt.Sprintf("msg=audit(%d.000:%d):", 1600000000+s.base+i, s.base+i) }
 	ls := []string{fmt.Sprintf("type=LOGIN %s pid=%d uid=0 old-auid=4294967295 auid=1000 tty=(none) old-ses=4294967295 ses=%s res=1", hdr(0), s.pid, s.ses)}
 	for i := 1; i <= s.k; i++ {
 		cmd := "6C73"
 		if bigEvents {
-			cmd = strings.Repeat("6C73202D6C61202F7372762F646174612F", 420) // ~7 kB once decoded
+			cmd = strings.Repeat("6C73202D6C61202F7372762F646174612F", bigRepeat) // 17 bytes each once decoded
 		}
 		ls = append(ls, fmt.Sprintf("type=USER_CMD %s pid=%d uid=1000 auid=1000 ses=%s msg='cwd=\"/\" cmd=%s terminal=pts/0 res=success'", hdr(i), s.pid, s.ses, cmd))
 	}
@@ -342,6 +346,10 @@ func runHandoffDaemon(ss []hsess, delaySshd, delayAudit int, noise int, fifoOut 
 				if b.Len() > 3000 {
 					d.sshdW.Write([]byte(b.String()))
 					b.Reset()
+					if bigEvents && !fifoOut {
+						// the audit side needs seconds for its oversized records: spread the failed logins over that time
+						time.Sleep(4 * time.Millisecond)
+					}
 				}
 			}
 			if i%3 == 2 { // bursts of three records per write
@@ -381,19 +389,36 @@ func runHandoffDaemon(ss []hsess, delaySshd, delayAudit int, noise int, fifoOut 
 	}()
 	wg.Wait()
 	deadline := time.Now().Add(8*time.Second + time.Duration(want/2000)*time.Second)
+	// count the lines written so far incrementally (the output can be tens of megabytes)
+	seenLines, scanned := 0, int64(0)
+	var tail *os.File
+	if !fifoOut {
+		tail, _ = os.Open(d.outPath)
+	}
+	chunk := make([]byte, 1<<20)
 	for time.Now().Before(deadline) {
-		var data []byte
 		if fifoOut {
 			cmu.Lock()
-			data = append([]byte(nil), collected...)
+			seenLines += bytes.Count(collected[scanned:], []byte{'\n'})
+			scanned = int64(len(collected))
 			cmu.Unlock()
-		} else {
-			data, _ = os.ReadFile(d.outPath)
+		} else if tail != nil {
+			for {
+				n, _ := tail.ReadAt(chunk, scanned)
+				seenLines += bytes.Count(chunk[:n], []byte{'\n'})
+				scanned += int64(n)
+				if n < len(chunk) {
+					break
+				}
+			}
 		}
-		if strings.Count(string(data), "\n") >= want {
+		if seenLines >= want {
 			break
 		}
 		time.Sleep(5*time.Millisecond + time.Duration(want/50)*time.Microsecond)
+	}
+	if tail != nil {
+		tail.Close()
 	}
 	time.Sleep(30 * time.Millisecond) // anything written twice would show up now
 	d.cmd.Process.Signal(syscall.SIGTERM)
@@ -422,7 +447,7 @@ func runHandoffDaemon(ss []hsess, delaySshd, delayAudit int, noise int, fifoOut 
 }
 
 func init() {
-	// handoff <id> <p|d> <pid:ses:k:base,…> <delaySshd_us>:<delayAudit_us> [seed] [noise=<n>]
+	// handoff <id> <p|d> <pid:ses:k:base,…> <delaySshd_us>:<delayAudit_us> [seed] [noise=<n>] [big=<repeat>]
 	modes["handoff"] = func(in *bufio.Scanner, out *bufio.Writer) {
 		rng := uint64(1)
 		for in.Scan() {
@@ -439,16 +464,26 @@ func init() {
 				rng = s
 			}
 			noise := 0
+			big := 0
 			for _, x := range f[4:] {
 				if strings.HasPrefix(x, "noise=") {
 					noise, _ = strconv.Atoi(x[6:])
 				}
+				if strings.HasPrefix(x, "big=") {
+					big, _ = strconv.Atoi(x[4:])
+				}
+			}
+			if big > 0 {
+				bigEvents, bigRepeat = true, big
 			}
 			var res string
 			if f[1] == "d" || f[1] == "f" {
 				res = runHandoffDaemon(ss, ds, da, noise, f[1] == "f")
 			} else {
 				res = runHandoffInProcess(ss, ds, da, &rng, noise)
+			}
+			if big > 0 {
+				bigEvents, bigRepeat = false, 420
 			}
 			fmt.Fprintf(out, "%s %s\n", f[0], res)
 			out.Flush()
